@@ -503,6 +503,49 @@ func (c09) Eval(c *Chooser, env *Env) *Outcome {
 			}
 		}
 	}
+	// step-level variant 0: the diagnostics of a step depend on the ids of the other steps, not on
+	// what those steps do: replacing the body of a step that calls no action (keeping its id) by a
+	// plain run step changes nothing for the other steps but line offsets.
+	if c.Weighted("world.stepswap", 1, 2) {
+		g := groups[c.Int("world.swapgroup", len(groups))]
+		if len(g.blocks) == 1 {
+			orig := g.blocks[0]
+			mod := orig
+			if from, to, n := swapStepBody(c, &mod); from > 0 {
+				r1 := lintAlone(o, header, []c09Block{orig}, g.assets, cfg)
+				r2 := lintAlone(o, header, []c09Block{mod}, g.assets, cfg)
+				if r1.failed == nil && r2.failed == nil && r1.fatal == "" && r2.fatal == "" {
+					o.probe("step_body_swaps_checked", 1)
+					var want, got []relDiag
+					ok := true
+					for _, d := range r1.perBlock[0] {
+						if d.Line >= from && d.Line < to {
+							continue
+						}
+						if strings.Contains(d.Msg, "line:") {
+							ok = false
+						}
+						if d.Line >= to {
+							d.Line += n - (to - from)
+						}
+						want = append(want, d)
+					}
+					for _, d := range r2.perBlock[0] {
+						if d.Line >= from && d.Line < from+n {
+							continue
+						}
+						got = append(got, d)
+					}
+					if ok && !relEqual(want, got) {
+						o.V = &Violation{Oracle: "step-independence", Class: "step-swap-diff:" + diffKinds(want, got),
+							Message: fmt.Sprintf("replacing the body of the step at lines +%d..+%d of job %q by a plain run step (same id) changes the diagnostics of the other steps beyond the line offset.\n  expected (original, shifted):\n%s  got:\n%s", from, to-1, orig.id, relString(want), relString(got)),
+							Detail:  map[string]any{"job": orig.text, "modified_job": mod.text}}
+						return o
+					}
+				}
+			}
+		}
+	}
 	// step-level variant 2: removing a step that has no id changes nothing for
 	// the remaining steps of the job but line offsets (checking one expression
 	// never alters how a later one is typed). Reference: the unmodified job.
@@ -693,6 +736,79 @@ func deleteStep(c *Chooser, blk *c09Block) (int, int) {
 		return from, to
 	}
 	return 0, 0
+}
+
+// swapStepBody replaces the body of one step that does not call an action (a run step, or a
+// step whose run key is misspelt or missing) by a plain run step, keeping its id. It returns the
+// line range [from, to) of the original step and the number of lines of the replacement.
+func swapStepBody(c *Chooser, blk *c09Block) (from, to, newLines int) {
+	var doc yaml.Node
+	if yaml.Unmarshal([]byte(blk.text), &doc) != nil || len(doc.Content) != 1 || doc.Content[0].Kind != yaml.MappingNode || len(doc.Content[0].Content) < 2 {
+		return 0, 0, 0
+	}
+	job := doc.Content[0].Content[1]
+	if job.Kind != yaml.MappingNode {
+		return 0, 0, 0
+	}
+	for i := 0; i+1 < len(job.Content); i += 2 {
+		if job.Content[i].Value != "steps" || job.Content[i+1].Kind != yaml.SequenceNode || job.Content[i+1].Style&yaml.FlowStyle != 0 {
+			continue
+		}
+		seq := job.Content[i+1]
+		if len(seq.Content) < 2 {
+			return 0, 0, 0
+		}
+		k := c.Int("world.swapat", len(seq.Content))
+		st := seq.Content[k]
+		if st.Kind != yaml.MappingNode || st.Style&yaml.FlowStyle != 0 {
+			return 0, 0, 0
+		}
+		id := ""
+		for m := 0; m+1 < len(st.Content); m += 2 {
+			switch strings.ToLower(st.Content[m].Value) {
+			case "id":
+				if st.Content[m+1].Kind != yaml.ScalarNode || strings.Contains(st.Content[m+1].Value, "${{") {
+					return 0, 0, 0
+				}
+				id = st.Content[m+1].Value
+			case "uses":
+				return 0, 0, 0 // the outputs of an action step are typed by its metadata: not a body swap
+			}
+		}
+		from = st.Line
+		to = blk.lines + 1
+		if k+1 < len(seq.Content) {
+			to = seq.Content[k+1].Line
+		} else if i+2 < len(job.Content) {
+			to = job.Content[i+2].Line
+		}
+		lines := strings.SplitAfter(blk.text, "\n")
+		if len(lines) > 0 && lines[len(lines)-1] == "" {
+			lines = lines[:len(lines)-1]
+		}
+		if from < 2 || to <= from || to-1 > len(lines) {
+			return 0, 0, 0
+		}
+		first := lines[from-1]
+		ind := len(first) - len(strings.TrimLeft(first, " "))
+		if !strings.HasPrefix(first[ind:], "- ") {
+			return 0, 0, 0
+		}
+		pad := strings.Repeat(" ", ind)
+		var repl []string
+		if id != "" {
+			repl = append(repl, pad+"- id: "+id+"\n", pad+"  run: echo swapped\n")
+		} else {
+			repl = append(repl, pad+"- run: echo swapped\n")
+		}
+		out := append([]string{}, lines[:from-1]...)
+		out = append(out, repl...)
+		out = append(out, lines[to-1:]...)
+		blk.text = strings.Join(out, "")
+		blk.lines += len(repl) - (to - from)
+		return from, to, len(repl)
+	}
+	return 0, 0, 0
 }
 
 // shiftRel shifts diagnostics (and positions echoed in their messages) at or
